@@ -185,18 +185,13 @@ def exec (sub : SubRun) (g : G) (f : Frame) (ins : Instr) : StepR :=
      | .ok (a, b, f') =>
        (match a, b with
         | .int x, .int y =>
-          let len0 := wrap64 (y - x)
-          let (step, len1) := if len0 < 0 then ((-1 : Int), wrap64 (-len0)) else ((1 : Int), len0)
-          let len := wrap64 (len1 + 1)
-          if len > 512 then err g f' "不能一次性创建过长的数组"
-          else if len < 0 then pan g f' "makeslice: len out of range@push.range"
+          -- the distance is computed on the side that cannot be negative; a negative value means it exceeded int64
+          let (step, len1) := if y < x then ((-1 : Int), wrap64 (x - y)) else ((1 : Int), wrap64 (y - x))
+          if len1 < 0 || len1 ≥ 512 then err g f' "不能一次性创建过长的数组"
           else
-            -- the fill loop runs until i == y; if that takes more than `len` steps Go indexes out of range
-            let n := len.toNat
+            let n := (len1 + 1).toNat
             let vals := (List.range n).map (fun (k : Nat) => Val.int (wrap64 (x + step * (k : Int))))
-            let last := wrap64 (x + step * ((n : Int) - 1))
-            if n == 0 || last != y then pan g f' "index out of range@push.range"
-            else let (h', addr) := g.heap.alloc (.arr vals); pushV { g with heap := h' } f' (.arr addr)
+            let (h', addr) := g.heap.alloc (.arr vals); pushV { g with heap := h' } f' (.arr addr)
         | _, _ => err g f' "左右两个区间必须都是数字类型")
      | r => bad g f r)
   | .pushLast =>
@@ -566,7 +561,7 @@ def exec (sub : SubRun) (g : G) (f : Frame) (ins : Instr) : StepR :=
        if op == "-" then
          (match opNeg v with
           | some nv => .next { g with stLog := g.stLog ++ ["mod|" ++ name ++ "|" ++ valToRepr g.heap nv ++ "||" ++ op ++ "|" ++ text] } f'
-          | none => pan g f' "nil dereference@st.mod Clone")
+          | none => err g f' ("此类型无法使用一元算符 neg: " ++ typeName v))
        else .next { g with stLog := g.stLog ++ ["mod|" ++ name ++ "|" ++ valToRepr g.heap v ++ "||" ++ op ++ "|" ++ text] } f'
      | r => bad g f r)
   | .stX1 =>
